@@ -79,7 +79,7 @@ func TestSessionInvariants(t *testing.T) { rapid.Check(t, spec.Check) }
 // sub-flow heavy variant: few action types, many enter_flow actions (several per node, missing targets, terminal
 // enters), default limits so that deep hierarchies are reached
 var subflowOpts = scen.GenOpts{
-	World: world.Opts{MaxFlows: 4, MaxNodes: 3, Adversarial: true, SubflowHeavy: true, Background: true,
+	World: world.Opts{MaxFlows: 4, MaxNodes: 3, Adversarial: true, SubflowHeavy: true, Background: true, BrokenFlow: true,
 		Actions: []string{"enter_flow", "send_msg", "set_run_result", "set_contact_name"}},
 	Restarts: true,
 	Refresh:  true,
